@@ -380,3 +380,44 @@ Proof.
 Qed.
 
 End NoNewline.
+
+(* ---------------------------------------------------------------- every graph built by AddTriples is consistent *)
+Lemma g_put_consistent : forall g k t, graph_consistent g -> pre_triple t = Ok k -> graph_consistent (g_put g k t).
+Proof.
+  induction g as [|[k' t'] g IH]; intros k t Hc Hk; cbn [g_put].
+  - constructor; [exact Hk | constructor].
+  - inversion Hc as [|e g' He Hg]; subst. destruct (key_eqb k k').
+    + constructor; [exact Hk | exact Hg].
+    + constructor; [exact He | apply IH; assumption].
+Qed.
+
+Lemma add_all_consistent : forall ts g g', graph_consistent g -> add_all g ts = Ok g' -> graph_consistent g'.
+Proof.
+  induction ts as [|t ts IH]; intros g g' Hc H; cbn [add_all] in H.
+  - inversion H. subst. exact Hc.
+  - unfold add_triple in H. destruct (pre_triple t) as [k| | |] eqn:Ek; try discriminate.
+    apply (IH _ _ (g_put_consistent _ _ _ Hc Ek) H).
+Qed.
+
+Lemma empty_consistent : graph_consistent [].
+Proof. constructor. Qed.
+
+(* the triples stored in a graph built by AddTriples are among the triples added *)
+Lemma g_put_triples : forall g k t e, In e (g_put g k t) -> e = (k, t) \/ In e g.
+Proof.
+  induction g as [|[k' t'] g IH]; intros k t e H; cbn [g_put] in H.
+  - destruct H as [H|[]]. left. auto.
+  - destruct (key_eqb k k').
+    + destruct H as [H|H]; [left; auto | right; right; exact H].
+    + destruct H as [H|H]; [right; left; exact H|]. destruct (IH _ _ _ H) as [X|X]; [left; exact X | right; right; exact X].
+Qed.
+
+Lemma add_all_triples : forall ts g g', add_all g ts = Ok g' -> forall e, In e g' -> In e g \/ In (snd e) ts.
+Proof.
+  induction ts as [|t ts IH]; intros g g' H e He; cbn [add_all] in H.
+  - inversion H. subst. left. exact He.
+  - unfold add_triple in H. destruct (pre_triple t) as [k| | |] eqn:Ek; try discriminate.
+    destruct (IH _ _ H e He) as [X|X].
+    + destruct (g_put_triples _ _ _ _ X) as [Y|Y]; [right; left; subst e; reflexivity | left; exact Y].
+    + right. right. exact X.
+Qed.
